@@ -31,7 +31,8 @@ STATE_MEASURE = 'distinct (call kind, outcome kind, reply kind) triples'
 PROBES = ['unknown-object', 'unknown-method', 'invalid-args', 'interface-omitted',
           'no-reply-dispatched', 'deferred-fired-out-of-order', 'deferred-fired-after-loss',
           'same-member-two-interfaces', 'dbusCaller-requested', 'inherited-interface-called', 'interface-bound-across-classes',
-          'unencodable-return', 'invalid-error-name', 'peer-ping', 'several-calls-in-flight']
+          'unencodable-return', 'invalid-error-name', 'peer-ping', 'several-calls-in-flight',
+          'nested-exception-class']
 COMPONENTS = {
     'real': ['txdbus.objects.DBusObjectHandler.handleMethodCallMessage / DBusObject.executeMethod',
              'txdbus.client.DBusClientConnection', 'txdbus.message / marshal', 'twisted Deferred'],
@@ -55,6 +56,20 @@ class BadNamedError(Exception):
 
 class OddError(Exception):
     pass
+
+
+class Outer:
+    class NestedError(Exception):
+        pass
+
+
+def _local_error_class():
+    class LocalError(Exception):
+        pass
+    return LocalError
+
+
+LocalError = _local_error_class()
 
 
 class Unencodable:
@@ -100,6 +115,9 @@ def scenario(ctx):
             return Unencodable()
         if kind in (2, 3, 4):
             cls = {2: OddError, 3: NamedError, 4: BadNamedError}[kind]
+            if kind == 2 and ds.flag(0.4):
+                cls = ds.pick([Outer.NestedError, LocalError])
+                sim.probe('nested-exception-class')
             text = ds.pick(['kaboom', '', 'x: y'])
             rec['outcome'] = 'raise'
             rec['exc'] = (cls, text)
